@@ -28,13 +28,13 @@ MIRRORED = [('mitxgraders/helpers/calc/math_array.py', '*'),
             ('mitxgraders/helpers/calc/expressions.py', 'MathExpression.eval_product'),
             ('mitxgraders/helpers/calc/expressions.py', 'MathExpression.eval_sum'),
             ('mitxgraders/formulagrader/matrixgrader.py', 'MatrixGrader.check_response')]
-REFUTED = ['C14_singular_negative_power_refuted']
+REFUTED = []
 TRUSTED = [
     'correspondence harness harness/props/c14.py (operand/outcome encoders, exception-message table, recorder wrapped around '
     'numpy.linalg inv at run time, formula renderer checked against the real parse tree on every case)',
     'modelled, not verified (specified oracles): numpy elementwise kernels, np.dot, np.linalg.matrix_power (repeated '
-    'multiplication in the model), np.linalg.inv (answers recorded per case and fed to the model; the hypothesis '
-    '"the answer is a two-sided inverse" is evaluated in Coq on every recorded answer), IEEE rounding (exact streams compared '
+    'multiplication in the model), np.linalg.matrix_rank and np.linalg.inv (answers recorded per case and fed to the model; the contracts '
+    '"deficient iff det = 0" and "the answer is a two-sided inverse" are evaluated in Coq on every recorded answer), IEEE rounding (exact streams compared '
     'by equality, divisions and inverses within a declared absolute tolerance)',
     'the parser (formula string -> tree) belongs to C03; here every generated formula is checked to parse to the intended tree',
 ]
@@ -43,11 +43,12 @@ ASSUMPTIONS = [
     'operands bypass MathArray altogether (numpy issue #124 of the library, the evaluator casts them away) and are outside the model',
     'division by the zero scalar and scalar**scalar are not MathArray\'s business (ZeroDivisionError from the library\'s numpy '
     'error handler, turned into CalcZeroDivisionError by MathExpression.eval); single-element arrays are outside the property\'s quantifier',
-    'inv_sound (np.linalg.inv returns a two-sided inverse or raises) is a HYPOTHESIS of the negative-power theorems; numpy violates '
-    'it for singular matrices whose floating-point LU keeps a tiny pivot (C14_singular_negative_power_refuted)',
+    'the contracts of the two numpy oracles behind negative powers are HYPOTHESES of C14_singular_negative_power_error / '
+    'C14_negative_power_is_inverse_power: rank_complete (np.linalg.matrix_rank flags every matrix with a nonzero kernel vector) and '
+    'inv_sound_regular (np.linalg.inv returns a true inverse for the matrices the rank test lets through); both are evaluated in Coq '
+    'on every recorded answer outside a conditioning guard band, both are satisfiable (C14_exact_oracles_meet_contracts)',
 ]
 
-FINDING_CODE = 'singular-negative-power-returned'
 
 # ------------------------------------------------------------------------------------------------------------------
 # Coq side
@@ -102,6 +103,8 @@ Definition out_agree (m : outcome) (o : obs) : bool :=
 (* recorded answers of np.linalg.inv: (n, matrix, answer, expected truth of "matrix . answer = I";
    None = ill-conditioned matrix, guard band) *)
 Definition inv_tab := list (nat * dspec * option dspec * option bool).
+(* recorded answers of np.linalg.matrix_rank(M) < n: (n, matrix, answer, check the contract "answer iff det M = 0"?) *)
+Definition rank_tab := list (nat * dspec * bool * bool).
 Definition key_tol : Q := 1 # 1000000000.
 Definition hyp_tol : Q := 1 # 1000000.
 Definition tab_inv (t : inv_tab) : inv_oracle := fun _ n d =>
@@ -109,11 +112,21 @@ Definition tab_inv (t : inv_tab) : inv_oracle := fun _ n d =>
   | Some (_, _, Some b, _) => Some (dval b)
   | _ => None
   end.
+(* a matrix the implementation never put to the rank test counts as refused: if the code stops asking, the model disagrees *)
+Definition tab_rank (t : rank_tab) : rank_oracle := fun _ n d =>
+  match find (fun e => match e with (n', m, _, _) => Nat.eqb n n' && d_close key_tol d (dval m) end) t with
+  | Some (_, _, answer, _) => answer
+  | None => true
+  end.
 Definition tab_ok (t : inv_tab) : bool :=
   forallb (fun e => match e with
                     | (n, m, Some b, Some flag) =>
                         Bool.eqb flag (d_close hyp_tol (matmat n n n (dval m) (dval b)) (identity n)
                                        && d_close hyp_tol (matmat n n n (dval b) (dval m)) (identity n))
+                    | _ => true end) t.
+Definition rank_ok (t : rank_tab) : bool :=
+  forallb (fun e => match e with
+                    | (n, m, answer, true) => Bool.eqb answer (cis_zero (det n (dval m)))
                     | _ => true end) t.
 (* Python's number ** number for integer-valued exponents (all the generator produces): repeated multiplication *)
 Fixpoint cpow (x : C) (k : nat) : C := match k with O => c1 | S k' => cmul x (cpow x k') end.
@@ -125,17 +138,18 @@ Definition no_spow : spow_oracle := fun ka a kb b =>
     else Ret (Num (kmax KFloat (kmax ka kb)) (cinv (cpow a (Z.to_nat (- z)))))
   else Raise EOutside.
 
-Definition op_case (c : bool * binop * val * val * inv_tab * list obs) : bool :=
+Definition op_case (c : bool * binop * val * val * rank_tab * inv_tab * list obs) : bool :=
   match c with
-  | (negpow, op, a, b, t, os) =>
-      let m := py_binop negpow (tab_inv t) no_spow op a b in
-      tab_ok t && forallb (out_agree m) os
+  | (negpow, op, a, b, rt, t, os) =>
+      let m := py_binop negpow (tab_rank rt) (tab_inv t) no_spow op a b in
+      rank_ok rt && tab_ok t && forallb (out_agree m) os
   end.
-Definition expr_case (c : bool * expr * inv_tab * obs) : bool :=
+Definition expr_case (c : bool * expr * rank_tab * inv_tab * obs) : bool :=
   match c with
-  | (negpow, e, t, o) => tab_ok t && out_agree (eval_expr negpow (tab_inv t) no_spow e) o
+  | (negpow, e, rt, t, o) =>
+      rank_ok rt && tab_ok t && out_agree (eval_expr negpow (tab_rank rt) (tab_inv t) no_spow e) o
   end.
-Definition any_case (c : (bool * binop * val * val * inv_tab * list obs) + (bool * expr * inv_tab * obs)) : bool :=
+Definition any_case (c : (bool * binop * val * val * rank_tab * inv_tab * list obs) + (bool * expr * rank_tab * inv_tab * obs)) : bool :=
   match c with inl x => op_case x | inr y => expr_case y end.
 Definition OpAdd := MathArray.Add. Definition OpSub := MathArray.Sub. Definition OpMul := MathArray.Mul.
 Definition OpDiv := MathArray.Div. Definition OpPow := MathArray.Pow.
@@ -341,6 +355,8 @@ class InvRecorder:
         if self.mod is None:
             raise RuntimeError('cannot locate the inv used by numpy.linalg.matrix_power')
         self.calls = []
+        self.rank_calls = []
+        self.taken_rank = []
 
     def __enter__(self):
         np = np_()
@@ -357,13 +373,28 @@ class InvRecorder:
             rec.calls.append((arr, np.array(r)))
             return r
         self.globals['inv'] = inv
+        # MathArray.__pow__ asks np.linalg.matrix_rank (looked up on the module at call time) before inverting
+        self.orig_rank = np.linalg.matrix_rank
+
+        def matrix_rank(a, *args, **kw):
+            r = rec.orig_rank(a, *args, **kw)
+            rec.rank_calls.append((np.array(a), int(r)))
+            return r
+        np.linalg.matrix_rank = matrix_rank
         return self
 
     def __exit__(self, *a):
         self.globals['inv'] = self.orig
+        np_().linalg.matrix_rank = self.orig_rank
 
     def take(self):
+        """recorded inv calls since the last take (the recorded rank calls move to take_rank)"""
         c, self.calls = self.calls, []
+        self.taken_rank, self.rank_calls = self.rank_calls, []
+        return c
+
+    def take_rank(self):
+        c, self.taken_rank = self.taken_rank, []
         return c
 
 
@@ -421,6 +452,26 @@ def inv_table(calls):
             flag = 'None' if illcond else '(Some %s)' % boollit(nonsingular)
             terms.append('(%d%%nat, %s, Some %s, %s)' % (n, dspec(flat), dspec(bflat), flag))
             entries.append((n, flat, bflat, not nonsingular, illcond))
+    return listlit(terms), entries
+
+
+def rank_table(calls):
+    """recorded matrix_rank calls -> (Coq rank_tab term, python entries (n, M flat, deficient answer, exactly singular?, ill-conditioned?))"""
+    seen, terms, entries = set(), [], []
+    for a, r in calls:
+        if a.ndim != 2 or a.shape[0] != a.shape[1]:
+            continue
+        n = int(a.shape[0])
+        flat = [pynum(x) for x in a.reshape(-1)]
+        key = (n, tuple(repr(z) for z in flat))
+        if key in seen:
+            continue
+        seen.add(key)
+        rows = [[frac2(flat[i * n + j]) for j in range(n)] for i in range(n)]
+        singular = exact_rank(rows) < n
+        illcond = (not singular) and cond_estimate([[G(*x) for x in row] for row in rows]) > COND_GUARD
+        terms.append('(%d%%nat, %s, %s, %s)' % (n, dspec(flat), boollit(r < n), boollit(not illcond)))
+        entries.append((n, flat, r < n, singular, illcond))
     return listlit(terms), entries
 
 
@@ -734,24 +785,24 @@ def call_forms(op, a, b):
 
 
 def tolerance_for(op, a, b, entries, st, out):
-    """(tol, shape_only, in_finding_region) for one observed outcome of a op b"""
+    """(tol, shape_only) for one observed outcome of a op b; shape_only = conditioning guard band"""
     if st != 'ret':
-        return 0, False, False
+        return 0, False
     got = from_impl(out)
     if got is None:
-        return 0, False, False
+        return 0, False
     if op == 'Div':
-        return Fraction(1, 10**12) * Fraction(1 + amax(got)), False, False
+        return Fraction(1, 10**12) * Fraction(1 + amax(got)), False
     if op == 'Pow' and b[0] == 'num' and b[1] != 'c' and complex(b[2]).real < 0 and entries:
         n, _, bflat, singular, illcond = entries[0]
-        if illcond:
-            return 0, True, False
         k = int(round(-complex(b[2]).real))
+        if illcond or bflat is None or (singular and k > 1):
+            return 0, True          # (an exactly singular matrix is only inverted if the rank test failed: not compared numerically)
         if singular:
-            return 0, k > 1, True
+            return 0, False
         bm = max(abs(complex(z)) for z in bflat)
-        return Fraction(1, 10**11) * Fraction(1 + n * bm) ** k, False, False
-    return 0, False, False
+        return Fraction(1, 10**11) * Fraction(1 + n * bm) ** k, False
+    return 0, False
 
 
 def ref_tol(op, a, b):
@@ -790,30 +841,26 @@ def run_op_case(op, a, b, negpow, rec, res, terms, metas):
         outcomes.append((fname, st, out))
         res.oracle_evals += 1
     tab_term, entries = inv_table(rec.take())
-    # the recorded defect, characterised by its mechanism: np.linalg.inv was asked for the inverse of an exactly singular
-    # matrix (the base) and answered with a matrix instead of raising
-    inv_answered_singular = any(sing and bflat is not None for _, _, bflat, sing, _ in entries)
+    rank_term, rank_entries = rank_table(rec.take_rank())
     for fname, st, out in outcomes:
         verdict = judge(expect, st, out, rtol)
         if verdict:
             code, text = verdict
-            singular_region = (op == 'Pow' and code == 'returned-where-undefined' and is_square(a) and b[0] == 'num'
-                               and negpow and b[1] != 'c' and complex(b[2]).real < 0
-                               and float(complex(b[2]).real).is_integer() and inv_answered_singular)
             res.witnesses.append({
                 'key': 'op:%s:%s:%s:%s' % (op, negpow, jsonable(a), jsonable(b)),
-                'kind': 'op', 'code': FINDING_CODE if singular_region else code, 'op': op, 'form': fname, 'negpow': negpow,
+                'kind': 'op', 'code': code, 'op': op, 'form': fname, 'negpow': negpow,
                 'a': jsonable(a), 'b': jsonable(b),
                 'what': '%s %s %s (%s%s): %s' % (short(a), SYM[op], short(b), fname,
                                                   '' if negpow else ', negative powers disabled', text)})
     obs = []
     zero_div = op == 'Div' and b[0] == 'num' and b[2] == 0
     for fname, st, out in outcomes:
-        tol, so, finding = tolerance_for(op, a, b, entries, st, out)
-        if finding and so:
+        tol, so = tolerance_for(op, a, b, entries, st, out)
+        if so:
             res.boundary += 1
         obs.append(obs_term(st, out, tol, so, zero_div_any=zero_div))
-    terms.append('(%s, Op%s, %s, %s, %s, %s)' % (boollit(negpow), op, val_term(a), val_term(b), tab_term, listlit(obs)))
+    terms.append('(%s, Op%s, %s, %s, %s, %s, %s)' % (boollit(negpow), op, val_term(a), val_term(b), rank_term, tab_term,
+                                                     listlit(obs)))
     metas.append({'op': op, 'a': jsonable(a), 'b': jsonable(b), 'negpow': negpow,
                   'observed': [(f, s, repr(o)[:120]) for f, s, o in outcomes]})
     ident = (op, a[0], a[1], tuple(a[2]) if a[0] == 'arr' else (), b[0], b[1], tuple(b[2]) if b[0] == 'arr' else (),
@@ -1279,6 +1326,7 @@ def run_formula_case(tree, env, negpow, rec, res, terms, metas, tag):
     st, out = core.guarded(call)
     res.oracle_evals += 1
     tab_term, entries = inv_table(rec.take())
+    rank_term, rank_entries = rank_table(rec.take_rank())
     notes = []
     expect = ref_eval(tree, env, negpow, notes)
     loose = has_division_or_negpow(tree)
@@ -1286,31 +1334,27 @@ def run_formula_case(tree, env, negpow, rec, res, terms, metas, tag):
     res.distribution[key] = res.distribution.get(key, 0) + 1
     if 'triple' in notes:
         res.distribution['formula_triple_vector_chains'] = res.distribution.get('formula_triple_vector_chains', 0) + 1
-    # the recorded defect at this level: the reference met an exactly singular base of a negative power (so an error is due)
-    # and np.linalg.inv handed back a matrix for a (numerically or exactly) singular operand instead of raising
-    answered = any(b is not None and (sing or ill) for _, _, b, sing, ill in entries)
-    finding = answered and ('singular-inverse' in notes or any(sing and b is not None for _, _, b, sing, _ in entries))
-    guard = any(ill for _, _, _, _, ill in entries) or 'ill-conditioned' in notes
+    if 'singular-inverse' in notes:
+        res.distribution['formula_singular_negative_powers'] = res.distribution.get('formula_singular_negative_powers', 0) + 1
+    # guard band: a matrix that went through the rank test / np.linalg.inv is ill-conditioned without being exactly singular
+    # (its float inverse, and whether the rank test lets it through, are not compared); exactly singular matrices are NOT guarded
+    guard = (any(ill for _, _, _, _, ill in entries) or any(ill for _, _, _, _, ill in rank_entries)
+             or 'ill-conditioned' in notes)
     got = from_impl(out) if st == 'ret' else None
     rtol = Fraction(1, 10**6) * Fraction(1 + (amax(got) if got and finite(got) else 0)) if loose else Fraction(0)
-    verdict = None if (guard and not finding) else judge(expect, st, out, rtol)
+    verdict = None if guard else judge(expect, st, out, rtol)
     if guard:
         res.boundary += 1
-    if finding and st == 'ret':
-        # a singular matrix was "inverted" below: whatever was computed from it is the same defect
-        verdict = (FINDING_CODE, 'np.linalg.inv returned a matrix for an exactly singular operand and evaluation went on; result %s'
-                   % short(got))
     if verdict:
         code, text = verdict
         res.witnesses.append({'key': 'formula:%s:%s:%s' % (formula, negpow, sorted((k, jsonable(v)) for k, v in env.items())),
                               'kind': 'formula', 'code': code, 'formula': formula, 'negpow': negpow,
-                              'variables': {k: jsonable(v) for k, v in env.items()},
+                              'variables': {k: jsonable(v) for k, v in env.items()}, 'observed': repr(out)[:160],
                               'what': 'evaluator(%r)%s: %s' % (formula, '' if negpow else ' with negative powers disabled', text)})
     tol = Fraction(1, 10**9) * Fraction(1 + (amax(got) if got and finite(got) else 0)) if loose else 0
-    if finding and not guard:
-        res.boundary += 1
-    terms.append('(%s, %s, %s, %s)' % (boollit(negpow), expr_term(tree, env), tab_term,
-                                       obs_term(st, out, tol, shape_only=finding or guard, zero_div_any=True)))
+    inverted_singular = any(sing and b is not None for _, _, b, sing, _ in entries)
+    terms.append('(%s, %s, %s, %s, %s)' % (boollit(negpow), expr_term(tree, env), rank_term, tab_term,
+                                           obs_term(st, out, tol, shape_only=guard or inverted_singular, zero_div_any=True)))
     metas.append({'formula': formula, 'negpow': negpow, 'variables': {k: jsonable(v) for k, v in env.items()},
                   'observed': (st, repr(out)[:160])})
     res.nontrivial.add((tag, formula, negpow, repr(sorted((k, jsonable(v)) for k, v in env.items()))))
@@ -1519,25 +1563,25 @@ def run(ctx):
     nfiles = 16 if ctx['tier'] == 'quick' else 48
     n, failing, errors = core.eval_agreement(
         'c14', HEADER, 'any_case', terms, shard=len(terms) // nfiles + 1,
-        case_type='(bool * binop * val * val * inv_tab * list obs) + (bool * expr * inv_tab * obs)')
+        case_type='(bool * binop * val * val * rank_tab * inv_tab * list obs) + (bool * expr * rank_tab * inv_tab * obs)')
     res.programs += n
     res.corr_errors += errors
     for i in failing:
         res.disagreements.append(metas[i])
     grader_level(ctx, res, rng)
-    res.witnesses.sort(key=lambda w: w['code'] == FINDING_CODE)      # anything that is not the recorded defect is reported first
     res.distribution['witness_codes'] = {}
     for w in res.witnesses:
         res.distribution['witness_codes'][w['code']] = res.distribution['witness_codes'].get(w['code'], 0) + 1
-    # the refuted example in Props/C14.v quotes np.linalg.inv([[3,3],[5,5]]) verbatim: say so if numpy now answers differently
+    # C14_ex_singular_witness_is_error quotes numpy's answers on [[3,3],[5,5]] (rank 1; the huge non-inverse): note a change
     np = np_()
     try:
         got = np.linalg.inv(np.array([[3, 3], [5, 5]])).reshape(-1).tolist()
     except np.linalg.LinAlgError:
         got = None
-    if got != [2251799813685248.0, -1351079888211149.0, -2251799813685248.0, 1351079888211149.0]:
-        res.notes.append('np.linalg.inv([[3,3],[5,5]]) now answers %r; C14_singular_negative_power_refuted quotes the answer '
-                         'observed when the model was validated' % (got,))
+    rank = int(np.linalg.matrix_rank(np.array([[3, 3], [5, 5]])))
+    if got != [2251799813685248.0, -1351079888211149.0, -2251799813685248.0, 1351079888211149.0] or rank != 1:
+        res.notes.append('numpy now answers inv([[3,3],[5,5]]) = %r, matrix_rank = %d; C14_ex_singular_witness_is_error quotes the '
+                         'answers observed when the model was validated' % (got, rank))
     return res
 
 
@@ -1567,22 +1611,20 @@ def replay(w):
         env = {k: unjson(v) for k, v in w['variables'].items()}
         variables = {k: to_impl(v) for k, v in env.items()}
         negpow = w['negpow']
-        with InvRecorder() as rec:
-            def call():
-                if negpow:
-                    return evaluator(w['formula'], variables=variables, functions={}, suffixes={})[0]
-                with MathArray.enable_negative_powers(False):
-                    return evaluator(w['formula'], variables=variables, functions={}, suffixes={})[0]
-            st, out = core.guarded(call)
-            _, entries = inv_table(rec.take())
-        finding = any((sing or ill) and b is not None for _, _, b, sing, ill in entries)
-        if w.get('code') == FINDING_CODE:
-            bad = finding and st == 'ret'
+        def call():
+            if negpow:
+                return evaluator(w['formula'], variables=variables, functions={}, suffixes={})[0]
+            with MathArray.enable_negative_powers(False):
+                return evaluator(w['formula'], variables=variables, functions={}, suffixes={})[0]
+        st, out = core.guarded(call)
+        code = w.get('code')
+        if code == 'non-student-facing-exception':
+            bad = st == 'exc' and not student_facing(out)
+        elif code == 'returned-where-undefined':
+            bad = st == 'ret'
         else:
-            bad = (st == 'ret') if w.get('code') == 'returned-where-undefined' else \
-                  (st == 'exc' and not student_facing(out)) if w.get('code') == 'non-student-facing-exception' else (st == 'ret')
-        return bad, 'evaluator(%r) with %r -> %s %r (singular operand passed through np.linalg.inv: %s)' % (
-            w['formula'], w['variables'], st, repr(out)[:200], finding)
+            bad = st == 'ret' and repr(out)[:160] == w.get('observed', repr(out)[:160])
+        return bad, 'evaluator(%r) with %r -> %s %r' % (w['formula'], w['variables'], st, repr(out)[:200])
     if kind == 'grader':
         st, out = core.guarded(grader_case, w['input'], w['config'])
         MathArray._negative_powers = True
@@ -1593,14 +1635,8 @@ def replay(w):
 
 
 def classify_known(w, known):
-    """Exactly one defect is recognised: MathArray.__pow__ with a negative integer-like exponent (negative powers enabled) on an
-    EXACTLY singular square matrix returns a matrix because np.linalg.inv did not raise.  Everything else stays unknown."""
-    if w.get('code') != FINDING_CODE:
-        return None
-    for e in known:
-        wit = e.get('witness') or {}
-        if wit.get('call_site') == 'MathArray.__pow__' and wit.get('condition') == FINDING_CODE:
-            return e.get('id')
+    """No defect of C14 is a known finding: the singular-matrix defect of MathArray.__pow__ was repaired in /repo (9dbef38), its
+    witnesses are ordinary regression cases now, and any recurrence must be reported as a VIOLATION."""
     return None
 
 
@@ -1610,12 +1646,12 @@ LEVEL_TEXT = ('Theorems for all shapes, all entries (Gaussian rationals) and all
               'scalar +/- array, unequal shapes, incompatible or tensor products, division by an array, powers of vectors/tensors/'
               'non-square matrices, non-integer or array exponents, negative powers while disabled); product chains of numbers and '
               'vectors with three or more vector factors are refused for chains of any length; array literals are stacked or refused; '
-              'formula trees of any depth evaluate by linear-algebra steps only. Negative powers are the power of the inverse '
-              'RELATIVE TO the hypothesis that np.linalg.inv answers with a true inverse or refuses (then singular matrices are '
-              'errors, proved); that hypothesis is refuted for numpy (C14_singular_negative_power_refuted): singular matrices can '
-              'get a huge finite "inverse" instead of the singular-matrix error.')
+              'formula trees of any depth evaluate by linear-algebra steps only. Negative powers: a matrix with a nonzero kernel '
+              'vector is always a student-facing error given that np.linalg.matrix_rank flags it (rank_complete), and for the matrices '
+              'the rank test lets through M^-k is the k-th power of a two-sided inverse given np.linalg.inv answers with one '
+              '(inv_sound_regular); both contracts are checked in Coq on every recorded answer and are satisfiable.')
 LEVEL_NOTE = ('Model tied to math_array.py / expressions.py by differential correspondence evaluated in Coq (operands, recorded '
-              'np.linalg.inv answers and observed outcomes embedded in the case terms); numpy kernels are specified oracles; exact '
+              'np.linalg.matrix_rank / np.linalg.inv answers and observed outcomes embedded in the case terms); numpy kernels are specified oracles; exact '
               'arithmetic, divisions and inverses compared within declared tolerances; no axioms.')
 TECHNIQUE = ('Coq proof (case analysis over the operator dispatch against an independent inductive specification, induction over '
              'chains, Gaussian-rational setoid algebra for the kernel/inverse argument) + vm_compute correspondence + '
